@@ -36,3 +36,29 @@ def replay_grammar_case(data, grammar_of=None):
         return 1
     print('replay: the recorded misbehaviour does not reproduce on this tree')
     return 0
+
+
+def replay_by_rerun(module, data):
+    """Replay that cannot disagree with the check: runs the check's own quick exploration on the current tree (no
+    evidence written) and looks for the recorded case — same signature, same grammar and input where the record has
+    them.  Exit 1 if the recorded misbehaviour is reported again, else 0."""
+    import os
+    from .runner import RunContext
+    d = data.get('detail', {})
+    sig = data.get('signature')
+    prop = data.get('property', module.PROPERTY)
+    print(json.dumps(d, indent=1, ensure_ascii=False)[:3000])
+    rc = RunContext(module.PROPERTY, module.LEVEL, os.environ.get('VERIF_TIER', 'quick'), int(os.environ.get('VERIF_SEED', '0') or 0))
+    rc.no_evidence = True
+    module.run(rc)
+    same_sig = [v for v in rc.total.violations if v['signature'] == sig]
+    keys = [k for k in ('grammar', 'input', 'start', 'settings', 'text', 'expression') if k in d]
+    exact = [v for v in same_sig if all(v['detail'].get(k) == d.get(k) for k in keys)]
+    if exact:
+        print(f'VIOLATION property={prop} replay=reproduced (the recorded case is reported again)')
+        return 1
+    if same_sig:
+        print(f'VIOLATION property={prop} replay=reproduced (signature {sig!r} is reported again, for {len(same_sig)} other recorded cases)')
+        return 1
+    print('replay: the check no longer reports this signature on this tree')
+    return 0
